@@ -116,6 +116,8 @@ type Object struct {
 	Buf    []Value
 	Closed bool
 	ItemVC [][]int32 // race mode: clock of the sender of each buffered item
+	// OBytes: the buffer is in a sync.Pool (Put, not handed out again since)
+	InPool bool
 	// harness-owned (exempt from the race monitor)
 	Harness bool
 	Site    string // allocation site (for reports)
